@@ -62,8 +62,10 @@ PROPS = {
     ),
     'C07': dict(
         title='subscriptions() returns every applicable subscriber, with multiplicity, in order',
-        contracts=['C04_lookup'], falsifier='C07', modes=['py', 'c'], level='other',
-        only={'C04_lookup': ['adapter.py:_subscriptions']},
+        contracts=['C04_lookup', 'C09_registry'], falsifier='C07', modes=['py', 'c'], level='other',
+        only={'C04_lookup': ['adapter.py:_subscriptions'],
+              'C09_registry': ['adapter.py:BaseAdapterRegistry.subscribe', 'adapter.py:BaseAdapterRegistry.unsubscribe',
+                               'adapter.py:BaseAdapterRegistry._addValueToLeaf', 'adapter.py:BaseAdapterRegistry._removeValueFromLeaf']},
         level_text='_subscriptions (the nested collector, recursion through its own contract) is verified from its real body: '
                    'it appends exactly the leaves of the applicable keys, least specific first at every required position and '
                    'for the provided extendors, preserving leaf order and multiplicity, and touches no other list. The '
@@ -86,28 +88,40 @@ PROPS = {
     ),
     'C09': dict(
         title='Registration bookkeeping reflects exactly the net effect of the history',
-        contracts=[], falsifier='C09', modes=['py'], level='other',
-        level_text='Bounded only so far: random histories (<=7 calls) of register/unregister/subscribe/unsubscribe/rebuild/'
-                   'register(None) with equal-but-distinct values compared after every step with a dictionary replay (listings, '
-                   'registered, subscribed, all lookups also through a deriving registry), then replay into a fresh registry.',
-        level_note='no obligation discharged yet for the mutators (nested-dictionary frame conditions); bounded run-time contract checking only.',
-        explanation='bounded run-time contract checking of the real mutators against a dictionary replay; not a proof',
+        contracts=['C09_registry'], falsifier='C09', modes=['py'], level='other',
+        only={'C09_registry': ['adapter.py:BaseAdapterRegistry.register', 'adapter.py:BaseAdapterRegistry.unregister', 'adapter.py:BaseAdapterRegistry.subscribe', 'adapter.py:BaseAdapterRegistry.unsubscribe', 'adapter.py:BaseAdapterRegistry._addValueToLeaf', 'adapter.py:BaseAdapterRegistry._removeValueFromLeaf', 'adapter.py:_convert_None_to_Interface']},
+        level_text="Verified from the real bodies for all registry contents: register rejects non-string names with ValueError before "
+                   "touching anything, treats None as unregister, and notifies (generation bump + cache invalidation) unless that very "
+                   "object is already registered under the key; unregister/unsubscribe either leave every existing container untouched "
+                   "or end by notifying; subscribe always notifies; _addValueToLeaf appends, _removeValueFromLeaf removes exactly the "
+                   "equal entries keeping order; None at registration means Interface. The functional effect on the nested mappings "
+                   "(which leaf changes, pruning of emptied containers, frame for sibling keys), the listings and rebuild() are "
+                   "checked bounded against a dictionary replay of random histories (<= 7 calls).",
+        level_note="the nested-dictionary frame conditions of the mutators are not discharged (DESIGN 9, first risk): bounded only; "
+                   "KeyError-freedom of the _provided bookkeeping is not claimed (may_raise).",
+        explanation='notification/no-op/argument-validation clauses of the mutators proved; functional update of the nested mappings bounded',
     ),
     'C05': dict(
         title='Lookup caches are transparent: answers never depend on earlier lookups',
-        contracts=['C04_lookup', 'C02_spec'], falsifier='C05', modes=['py', 'c'], level='other',
+        contracts=['C04_lookup', 'C02_spec', 'C09_registry'], falsifier='C05', modes=['py', 'c'], level='other',
         only={'C04_lookup': ['adapter.py:AdapterLookupBase._uncached_lookup'],
-              'C02_spec': ['interface.py:Specification.changed', 'interface.py:Specification.__setBases']},
-        level_text='_uncached_lookup is verified to subscribe the lookup object to every required specification on every path '
-                   '(the invalidation edge spec -> lookup object). Transparency itself is checked bounded: random interleavings '
-                   '(<=9 steps) of all entry points with every mutation kind of the statement, compared with cold registries.',
-        level_note='deductive only for the subscription edge; cache invalidation by the mutators is bounded so far.',
-        explanation='one invalidation edge proved; transparency decided by bounded differential checking against cold registries',
+              'C02_spec': ['interface.py:Specification.changed', 'interface.py:Specification.__setBases'],
+              'C09_registry': ['adapter.py:LookupBase.changed', 'adapter.py:BaseAdapterRegistry.changed', 'adapter.py:AdapterRegistry.changed', 'adapter.py:BaseAdapterRegistry.register', 'adapter.py:BaseAdapterRegistry.unregister', 'adapter.py:BaseAdapterRegistry.subscribe', 'adapter.py:BaseAdapterRegistry.unsubscribe']},
+        level_text='The invalidation edges are verified from the real bodies: _uncached_lookup subscribes the lookup object to every '
+                   'required specification on every path; __bases__ assignment keeps the subscription invariant and changed() '
+                   'notifies every dependent (C02 contracts); every registry mutator either touches nothing or ends by notifying '
+                   'the registry; BaseAdapterRegistry.changed bumps the generation and empties the three caches of its lookup object '
+                   '(LookupBase.changed); AdapterRegistry.changed reaches every registered sub-registry. Transparency itself (a cache '
+                   'entry, once stored, equals the uncached answer) is checked bounded: random interleavings (<= 9 steps) of all entry '
+                   'points with every mutation kind, compared with cold registries.',
+        level_note='cache-filling paths of LookupBase (lookup/lookup1/adapter_hook/lookupAll/subscriptions) and the C twins are bounded.',
+        explanation='invalidation edges proved; cache-filling and end-to-end transparency bounded',
     ),
     'C06': dict(
         title='Registries consult exactly their current base chain, in resolution order',
-        contracts=['C04_lookup'], falsifier='C06', modes=['py', 'c'], level='other',
-        only={'C04_lookup': ['adapter.py:AdapterLookupBase._uncached_lookup']},
+        contracts=['C04_lookup', 'C09_registry'], falsifier='C06', modes=['py', 'c'], level='other',
+        only={'C04_lookup': ['adapter.py:AdapterLookupBase._uncached_lookup'],
+              'C09_registry': ['adapter.py:BaseAdapterRegistry.changed', 'adapter.py:AdapterRegistry.changed']},
         level_text='_uncached_lookup is verified to consult the registries of the stored resolution order nearest first and to '
                    'stop at the first hit. That the stored order is the current C3 order of the base chain after any re-basing '
                    'is checked bounded on random registry DAGs/histories of both flavours; the recorded defect (stale order of '
